@@ -197,24 +197,37 @@ def run_case(case: dict) -> dict:
                 lcfg = env.cfg.local_search
                 saved = (lcfg.local_search_probability, lcfg.local_search_same_datatype,
                          lcfg.local_search_different_datatype, lcfg.local_search_collections,
-                         lcfg.local_search_complex_objects, lcfg.local_search_time)
+                         lcfg.local_search_complex_objects)
                 lcfg.local_search_probability = 0.2
                 lcfg.local_search_same_datatype = op["pos"] < 0.7
                 lcfg.local_search_different_datatype = op["pos"] > 0.3
                 lcfg.local_search_collections = True
                 lcfg.local_search_complex_objects = True
-                lcfg.local_search_time = 10**9
                 try:
                     members = [c for c in (a, pool[op["b"] % len(pool)]) if c.test_case.size() > 0]
                     members = members[:1] if len(members) == 2 and members[0] is members[1] else members
                     suite = env.strategy.create_test_suite(members)
                     suite.get_fitness()
-                    timer = LocalSearchTimer()
-                    timer.start_timer()
+                    class _StepTimer(LocalSearchTimer):
+                        """A budget in steps instead of wall time: exactly repeatable, and it bounds searches that
+                        would otherwise run for minutes (integer/string searches re-execute the test at every step)."""
+
+                        def __init__(self, steps):
+                            super().__init__()
+                            self._steps = steps
+
+                        def start_timer(self):
+                            pass
+
+                        def limit_reached(self):
+                            self._steps -= 1
+                            return self._steps < 0
+
+                    timer = _StepTimer(150)
                     lsm.TestSuiteLocalSearch().local_search(suite, env.factory, env.executor, timer)
                 finally:
                     (lcfg.local_search_probability, lcfg.local_search_same_datatype, lcfg.local_search_different_datatype,
-                     lcfg.local_search_collections, lcfg.local_search_complex_objects, lcfg.local_search_time) = saved
+                     lcfg.local_search_collections, lcfg.local_search_complex_objects) = saved
                 probes["local_search_runs"] = probes.get("local_search_runs", 0) + 1
                 for other in pool:
                     if other is not a:
